@@ -545,6 +545,11 @@ class ExprGen:
             return 'ravelIndex %s %s %s' % (t1, t2, t3), ev.RavelIndex(n1, n2, ev.constant(7), n3)
         if k == 'take':
             (tf, nf, L), (ti, ni) = self.vector(d-1, loops), self.scalar(d-1, loops)
+            # indices inside [0, n): nutils' rewrite rules (and the default rule, which evaluates simplified) do not wrap negative indices as numpy does
+            if self.rng.random() < .5:
+                ti, ni = 'inRange %s %s' % (ti, L[0]), ev.InRange(ni, L[1])
+            else:
+                ti, ni = 'mod %s max %s const s 1 1' % (ti, L[0]), ev.Mod(ni, ev.Maximum(L[1], ev.constant(1)))
             return 'take %s %s' % (tf, ti), ev.Take(nf, ni)
         if k == 'sum':
             tf, nf, L = self.vector(d-1, loops)
@@ -600,7 +605,11 @@ class ExprGen:
                 (t1, n1), (t2, n2, _) = self.index_scalar(d-1, loops), self.vector(d-1, loops, L)
             return 'ravelIndex %s %s %s' % (t1, t2, t3), ev.RavelIndex(n1, n2, ev.constant(7), n3), L
         if k == 'take':
-            (tf, nf, _), (ti, ni, _) = self.vector(d-1, loops), self.vector(d-1, loops, L)
+            (tf, nf, Lf), (ti, ni, _) = self.vector(d-1, loops), self.vector(d-1, loops, L)
+            if self.rng.random() < .5:
+                ti, ni = 'inRange %s %s' % (ti, Lf[0]), ev.InRange(ni, Lf[1])
+            else:
+                ti, ni = 'mod %s insertAxis max %s const s 1 1 %s' % (ti, Lf[0], L[0]), ev.Mod(ni, ev.InsertAxis(ev.Maximum(Lf[1], ev.constant(1)), L[1]))
             return 'take %s %s' % (tf, ti), ev.Take(nf, ni), L
         if k == 'insertAxis':
             t, n = self.scalar(d-1, loops); return 'insertAxis %s %s' % (t, L[0]), ev.InsertAxis(n, L[1]), L
